@@ -243,6 +243,19 @@ Section C08.
     apply IH. intros s c' Hc'. apply H. now right.
   Qed.
 
+  Lemma frmc_single f c : frmc f [c] = Some [c].
+  Proof. destruct f; reflexivity. Qed.
+
+  (** Three parents with single merge bases: the base [b] of the third parent is the common
+      ancestor of the third parent with BOTH parents merged so far. *)
+  Lemma frmc_three f p1 p2 p3 a b :
+    common_ancestors [p1] [p2] = [a] -> common_ancestors [p1; p2] [p3] = [b] ->
+    frmc (S f) [p1; p2; p3] = Some [p1; a; p2; b; p3].
+  Proof.
+    intros H1 H2. rewrite frmc_S. cbn [frmc_loop app]. rewrite H1, frmc_single.
+    cbn [app]. rewrite H2, frmc_single. reflexivity.
+  Qed.
+
   Theorem frmc_terminates : ca_below -> forall fuel ids,
     ((2 <= length ids)%nat -> (bound ids < fuel)%nat) -> exists m, frmc fuel ids = Some m.
   Proof.
@@ -329,8 +342,25 @@ Proof.
     now apply (H b' b t).
 Qed.
 
+Lemma opt_nats_eqb_spec a b :
+  opt_nats_eqb a b = true <-> exists y, b = Some y /\ a = Some (nats y).
+Proof.
+  destruct a as [x|], b as [y|]; cbn [opt_nats_eqb];
+    try (split; [discriminate|intros (y' & H1 & H2); discriminate]).
+  rewrite (list_eqb_spec Nat.eqb Nat.eqb_eq). split.
+  - intros ->. eauto.
+  - intros (y' & H1 & H2). injection H1 as <-. now injection H2.
+Qed.
+
+(** find_recursive_merge_commits returned what its documented recursion over the graph's
+    greatest common ancestors gives, for the old and for the new parents. *)
+Definition merge_commits_P (c : case) : Prop :=
+  (exists y, c_frmc_old c = Some y /\ merge_commits_spec c (old_parents c) = Some (nats y))
+  /\ (exists y, c_frmc_new c = Some y /\ merge_commits_spec c (nats (c_new_parents c)) = Some (nats y)).
+
 Theorem okb_spec (c : case) :
   C08.okb c = true <->
+  merge_commits_P c /\
   exists ob nb r back,
     c_old_base c = Some ob /\ c_new_base c = Some nb /\ c_rebased c = Some r /\ c_back c = Some back /\
     let tab := c_tab c in
@@ -344,7 +374,10 @@ Theorem okb_spec (c : case) :
                        law_P (c_accept c) (map (dec tab) (c_unresolved c)) nbt obt ot p vs)
          /\ back_P (c_accept c) nbt obt ot backt.
 Proof.
-  unfold C08.okb.
+  unfold C08.okb. rewrite Bool.andb_true_iff.
+  assert (EM : merge_commits_ok c = true <-> merge_commits_P c).
+  { unfold merge_commits_ok, merge_commits_P. now rewrite Bool.andb_true_iff, !opt_nats_eqb_spec. }
+  rewrite EM. apply and_iff_compat_l.
   destruct (c_old_base c) as [ob|], (c_new_base c) as [nb|], (c_rebased c) as [r|], (c_back c) as [back|];
     try (split; [discriminate|intros (? & ? & ? & ? & H1 & H2 & H3 & H4 & _); discriminate]).
   cbn zeta. split.
